@@ -17,6 +17,7 @@ import (
 	"github.com/XiXi-2024/xixi-kv/datafile"
 	"github.com/XiXi-2024/xixi-kv/datatype"
 	"github.com/XiXi-2024/xixi-kv/fio"
+	"github.com/XiXi-2024/xixi-kv/verifhook"
 )
 
 type session struct {
@@ -338,7 +339,20 @@ func (s *session) exec(line string) (res string) {
 	case "scanstat":
 		return s.scanStat()
 	case "merge":
-		return errClass(s.db.Merge())
+		// the order in which Merge visits the older files (Go map iteration) is an input of the model
+		var order []string
+		prev := verifhook.PointFn
+		verifhook.PointFn = func(name, arg string) {
+			if name == "merge.file" {
+				order = append(order, arg)
+			}
+			if prev != nil {
+				prev(name, arg)
+			}
+		}
+		err := s.db.Merge()
+		verifhook.PointFn = prev
+		return errClass(err) + " order=" + strings.Join(order, ",")
 	case "backup":
 		return errClass(s.db.Backup(s.dir(a[0])))
 	case "active":
